@@ -7,11 +7,12 @@ namespace SamVerif.Resp
 
 mutual
 /-- A RESP value in the sense of the property: simple/error text has no LF (it is a
-line), integers are 64-bit, bulk and array lengths are within the decoder's limits. -/
+line of at most 64 KiB), integers are 64-bit, bulk and array lengths are within the decoder's limits.
+(The nesting limit is a separate hypothesis `depth v ≤ maxArrayDepth` of the theorems.) -/
 def wf : Resp → Bool
   | .int i => decide (minInt64 ≤ i) && decide (i ≤ maxInt64)
-  | .simple t => t.all (· != LF)
-  | .err t => t.all (· != LF)
+  | .simple t => t.all (· != LF) && decide (t.length + 2 ≤ maxLineLen)
+  | .err t => t.all (· != LF) && decide (t.length + 2 ≤ maxLineLen)
   | .bulk none => true
   | .bulk (some t) => decide (t.length ≤ maxBulkStringLen)
   | .arr none => true
